@@ -1,5 +1,6 @@
 import SFV.Model.MeasureSample
 import SFV.Proofs.FockTensor
+import SFV.Proofs.GaussNM
 import SFV.Proofs.MeasureDiscrete
 import Mathlib.Algebra.Order.Field.Basic
 import Mathlib.Algebra.BigOperators.Group.List.Basic
@@ -223,6 +224,55 @@ theorem bornProb_nil (D n : Nat) (ρ : Tens K) : bornProb D n ρ [] = traceOver 
   simp [assign]
 
 end fock
+
+/-! ### Gaussian back end: index computation of the photon-counting / threshold path -/
+
+section discrete
+open SFV.Gauss
+variable {K : Type} [CommRing K]
+
+/-- the quadrature a position of the sampler's argument must describe: `x` of `modes[j]` for `j < k`, then `p` -/
+def discreteLabel (modes : List Nat) (j : Nat) : Q :=
+  if j < modes.length then ((modes.getD j 0, false) : Q) else ((modes.getD (j - modes.length) 0, true) : Q)
+
+theorem discreteIdxs_x (nlen : Nat) (modes : List Nat) (j : Nat) (hj : j < modes.length) :
+    (discreteIdxs nlen modes).getD j 0 = modes.getD j 0 := by
+  unfold discreteIdxs
+  rw [List.getD_eq_getElem?_getD, List.getD_eq_getElem?_getD, List.getElem?_append_left hj]
+
+theorem discreteIdxs_p (nlen : Nat) (modes : List Nat) (j : Nat) (hj : j < modes.length) :
+    (discreteIdxs nlen modes).getD (modes.length + j) 0 = modes.getD j 0 + nlen := by
+  unfold discreteIdxs
+  rw [List.getD_eq_getElem?_getD, List.getD_eq_getElem?_getD,
+    List.getElem?_append_right (Nat.le_add_right _ _)]
+  simp [List.getElem?_map, List.getElem?_eq_getElem hj]
+
+/-- **the samplers receive exactly the measured modes' quadratures**, for every array size `st.n` (live or deleted
+rows alike) and every list of modes below it, in the order listed -/
+theorem gaussDiscreteArgs_spec (st : GS K) (modes : List Nat) (hlt : ∀ m ∈ modes, m < st.n) (a b : Nat)
+    (ha : a < 2 * modes.length) (hb : b < 2 * modes.length) :
+    (gaussDiscreteArgs st modes).cov a b = (toXP st).cov (discreteLabel modes a) (discreteLabel modes b) ∧
+    (gaussDiscreteArgs st modes).mean a = (toXP st).mean (discreteLabel modes a) := by
+  have key : ∀ j, j < 2 * modes.length →
+      (j < modes.length ∧ (discreteIdxs st.n modes).getD j 0 = modes.getD j 0 ∧ modes.getD j 0 < st.n) ∨
+      (¬ j < modes.length ∧ (discreteIdxs st.n modes).getD j 0 = modes.getD (j - modes.length) 0 + st.n ∧
+        modes.getD (j - modes.length) 0 < st.n) := by
+    intro j hj
+    by_cases h : j < modes.length
+    · refine Or.inl ⟨h, discreteIdxs_x _ _ _ h, ?_⟩
+      rw [List.getD_eq_getElem?_getD, List.getElem?_eq_getElem h]; exact hlt _ (List.getElem_mem h)
+    · have h' : j - modes.length < modes.length := by omega
+      refine Or.inr ⟨h, ?_, ?_⟩
+      · have := discreteIdxs_p st.n modes (j - modes.length) h'
+        rwa [show modes.length + (j - modes.length) = j by omega] at this
+      · rw [List.getD_eq_getElem?_getD, List.getElem?_eq_getElem h']; exact hlt _ (List.getElem_mem h')
+  unfold gaussDiscreteArgs
+  simp only
+  rcases key a ha with ⟨h1, e1, l1⟩ | ⟨h1, e1, l1⟩ <;> rcases key b hb with ⟨h2, e2, l2⟩ | ⟨h2, e2, l2⟩ <;>
+    simp only [e1, e2, discreteLabel, h1, h2, if_true, if_false, scovxp, smeanxp, l1, l2, XP.cov, XP.mean, toXP,
+      Nat.add_sub_cancel, Nat.not_lt.mpr (Nat.le_add_left _ _), and_self]
+
+end discrete
 
 /-! ### bosonic rejection sampler -/
 
